@@ -309,6 +309,8 @@ class Gen:
             if self.chance(0.5):
                 lit = self.d(st.text(alphabet="abcxyz =:,.-" + ("#%'\\\"" if self.p.hostile_strings else ""), max_size=5))
                 parts.append(lit.replace("\\", "\\\\").replace('"', '\\"').replace("{", "").replace("}", ""))
+            elif parts and parts[-1].endswith("}"):
+                parts.append("|")   # two interpolated numbers never touch: "12.25" + "38.44" would read as other numbers
             t = self.choice(["int", "int", "float", "str"])
             if t == "str":
                 nm = self.names("str")
